@@ -111,12 +111,26 @@ pub fn calc_metadata(
         pre_gas_info_old
     };
 
+    // Set if a libfunc requires a token usage that the pre-cost computation did not provide.
+    let missing_token_usage = std::cell::Cell::new(false);
     let ap_change_info =
         if config.linear_ap_change_solver { linear_calc_ap_changes } else { calc_ap_changes }(
             program,
             program_info,
-            |idx, token_type| pre_gas_info.variable_values[&(idx, token_type)] as usize,
+            |idx, token_type| {
+                pre_gas_info
+                    .variable_values
+                    .get(&(idx, token_type))
+                    .and_then(|value| usize::try_from(*value).ok())
+                    .unwrap_or_else(|| {
+                        missing_token_usage.set(true);
+                        0
+                    })
+            },
         )?;
+    if missing_token_usage.get() {
+        return Err(MetadataError::CostError(CostError::UnsupportedByEquationSolver));
+    }
 
     let mut post_gas_info = if config.linear_gas_solver {
         let enforced_function_costs: OrderedHashMap<FunctionId, i32> = config
